@@ -6,6 +6,8 @@ import (
 	"sync"
 
 	"verifrt"
+
+	"github.com/iotaledger/hive.go/ierrors"
 )
 
 // Property C07: Sequence numbers are never reused across crashes and restarts.
@@ -17,6 +19,20 @@ type c07Store struct {
 	val     [8]byte
 	ops     int
 	crashAt int
+	failAt  int // the failAt-th store operation returns an error instead of taking effect (-1: never)
+	failed  bool
+}
+
+var errC07Store = ierrors.New("injected store failure")
+
+func (c *c07Store) fails() bool {
+	if c.failAt >= 0 && c.ops-1 == c.failAt {
+		c.failed = true
+
+		return true
+	}
+
+	return false
 }
 
 type c07Crash struct{}
@@ -30,6 +46,9 @@ func (c *c07Store) tick() {
 
 func (c *c07Store) Get(Key) (Value, error) {
 	c.tick()
+	if c.fails() {
+		return nil, errC07Store
+	}
 	if !c.has {
 		return nil, ErrKeyNotFound
 	}
@@ -39,6 +58,9 @@ func (c *c07Store) Get(Key) (Value, error) {
 
 func (c *c07Store) Set(_ Key, v Value) error {
 	c.tick()
+	if c.fails() {
+		return errC07Store
+	}
 	copy(c.val[:], v)
 	c.has = true
 
@@ -64,18 +86,28 @@ func (c *c07Store) Flush() error                       { panic("unused") }
 func (c *c07Store) Close() error                       { panic("unused") }
 func (c *c07Store) Batched() (BatchedMutations, error) { panic("unused") }
 
+// c07Inv is the representation invariant of a Sequence object that has talked to the store (Appendix A.1,
+// widened to the states left behind by a failed store write: next may run ahead of reserved, never beyond S).
+func c07Inv(H, S uint64, has bool, next, reserved, interval uint64) bool {
+	return verifrt.And(verifrt.And(has, verifrt.And(H <= next, next <= S)),
+		verifrt.And(reserved <= S, verifrt.Or(next >= reserved, reserved-next <= interval)))
+}
+
 // H_C07_step: one inductive step from an arbitrary state satisfying the representation invariant
 // (DESIGN.md Appendix A.1): store mark S, ghost H = 1 + largest number ever handed out, a live or fresh
 // Sequence object; one of Next / Release with a symbolic crash position.
 //
-//verif:h prop=C07 cover=next-ok,next-lease,next-update,release-leased,release-fresh,crash
+//verif:h prop=C07 cover=next-ok,next-lease,next-update,release-leased,release-fresh,crash,store-error
 func H_C07_step() {
 	S, H := verifrt.U64("S"), verifrt.U64("H")
 	has := verifrt.Bool("has")
 	verifrt.Assume(S < 1<<63)
 	verifrt.Assume(has || H == 0)
 	verifrt.Assume(!has || H <= S)
-	st := &c07Store{has: has, crashAt: verifrt.Choose("crashAt", 3) - 1} // -1: no crash; 0/1: before 1st/2nd store op
+	st := &c07Store{has: has, crashAt: verifrt.Choose("crashAt", 3) - 1, failAt: -1} // -1: no crash; 0/1: before 1st/2nd store op
+	if st.crashAt < 0 {
+		st.failAt = verifrt.Choose("failAt", 3) - 1 // a store operation that returns an error instead
+	}
 	binary.BigEndian.PutUint64(st.val[:], S)
 	interval := verifrt.U64("interval")
 	verifrt.Assume(interval >= 1 && interval < 1<<32)
@@ -83,10 +115,10 @@ func H_C07_step() {
 	verifrt.Assert(err == nil && seq != nil, "NewSequence succeeds")
 	live := verifrt.Bool("live")
 	if live {
-		// an object that obtained a lease earlier in its life
+		// an object that talked to the store earlier in its life (possibly unsuccessfully)
 		seq.next, seq.reserved = verifrt.U64("next"), verifrt.U64("reserved")
-		verifrt.Assume(has && seq.reserved > 0 && seq.next <= seq.reserved && seq.reserved <= S && H <= seq.next &&
-			seq.reserved-seq.next <= interval)
+		verifrt.Assume(seq.next != 0 || seq.reserved != 0)
+		verifrt.Assume(c07Inv(H, S, has, seq.next, seq.reserved, interval))
 	}
 	S0 := S
 	if !has {
@@ -106,6 +138,12 @@ func H_C07_step() {
 		case 0:
 			hadLease := seq.next < seq.reserved
 			v, err := seq.Next()
+			if st.failed {
+				verifrt.Cover("store-error")
+				verifrt.Assert(err != nil, "Next swallowed a store error")
+
+				break
+			}
 			verifrt.Assert(err == nil, "Next does not fail on a working store")
 			verifrt.Cover("next-ok")
 			if hadLease {
@@ -117,9 +155,16 @@ func H_C07_step() {
 			H = v + 1
 		case 1:
 			n := seq.next
+			leased := live && seq.reserved != 0
 			err := seq.Release()
+			if st.failed {
+				verifrt.Cover("store-error")
+				verifrt.Assert(err != nil, "Release swallowed a store error")
+
+				break
+			}
 			verifrt.Assert(err == nil, "Release does not fail on a working store")
-			if live {
+			if leased {
 				verifrt.Cover("release-leased")
 				verifrt.Assert(st.has && st.mark() == n, "clean Release stores exactly the next unused number (wastes none)")
 			} else {
@@ -137,8 +182,7 @@ func H_C07_step() {
 	} else {
 		// the object satisfies the invariant again
 		fresh := seq.reserved == 0 && seq.next == 0
-		liveOK := seq.reserved > 0 && st.has && seq.next <= seq.reserved && seq.reserved <= S2 && H <= seq.next &&
-			seq.reserved-seq.next <= interval
+		liveOK := c07Inv(H, S2, st.has, seq.next, seq.reserved, interval)
 		verifrt.Assert(fresh || liveOK, "Sequence object violates its representation invariant after the step")
 	}
 }
@@ -148,7 +192,7 @@ func H_C07_step() {
 //
 //verif:h prop=C07 p.events=4/5 cover=restart,crash,release,two-numbers
 func H_C07_hist() {
-	st := &c07Store{crashAt: -1}
+	st := &c07Store{crashAt: -1, failAt: -1}
 	newSeq := func() *Sequence {
 		iv := verifrt.U64("interval")
 		verifrt.Assume(iv >= 1 && iv < 1<<32)
@@ -206,7 +250,7 @@ func H_C07_hist() {
 //
 //verif:h prop=C07 preempt=2/3 cover=both
 func H_C07_conc() {
-	st := &c07Store{crashAt: -1}
+	st := &c07Store{crashAt: -1, failAt: -1}
 	seq, _ := NewSequence(st, []byte("k"), uint64(1+verifrt.Choose("interval", 2)))
 	var a, b uint64
 	var wg sync.WaitGroup
